@@ -26,6 +26,7 @@ import (
 //	R-foreign-delete    any other function that deletes from the table cancels the record it removes
 //	                    (session termination), and never deletes on a mere write failure of a stream
 //	R-table-lock-free-write  no write to a session's stream happens while the table's lock is held
+//	R-register-first    the registering handler sends to the session only after its own record is in the table
 //	R-slot-owner        (client) a stream goroutine touches the shared stream slot only while it still owns it
 func init() { Registry["C11"] = checkC11 }
 
@@ -179,6 +180,93 @@ func checkC11(c *Ctx) {
 						}
 					}
 				})
+				// R-register-first: whatever this handler sends "to the session" — through a function that looks the
+				// session's current stream up in the table — is sent after its own record is in the table; before
+				// that the lookup finds the OLD stream (or none).
+				tableReaders := map[*ssa.Function]bool{}
+				for _, g := range c.P.LibFns {
+					if g == fn {
+						continue
+					}
+					ir.EachInstr(g, func(_ *ssa.BasicBlock, _ int, in ssa.Instruction) {
+						if lk, ok := in.(*ssa.Lookup); ok && fromTableLookup(lk, table) {
+							tableReaders[g] = true
+						}
+					})
+				}
+				mutators := map[*ssa.Function]string{} // functions that delete from / store into a table of the library
+				for _, a := range accs {
+					if a.Init || a.Local || a.Field == table || (a.Kind != "map-delete" && a.Kind != "map-update") {
+						continue
+					}
+					mutators[a.Fn] = a.Field
+				}
+				// the exit region: what follows the wait for this stream's own context
+				exitRegion := map[*ssa.BasicBlock]bool{}
+				ir.EachInstr(fn, func(_ *ssa.BasicBlock, _ int, in ssa.Instruction) {
+					u, ok := in.(*ssa.UnOp)
+					if !ok || u.Op != token.ARROW {
+						return
+					}
+					oc := originCall(u.X)
+					if oc == nil || ir.CallName(oc) != "(context.Context).Done" {
+						return
+					}
+					if wc := originCall(oc.Call.Value); wc == nil || !strings.HasPrefix(ir.CallName(wc), "context.With") {
+						return
+					}
+					for b := range flow.BlocksReachableAvoiding(in.Block(), nil) {
+						if b != in.Block() {
+							exitRegion[b] = true
+						}
+					}
+					exitRegion[in.Block()] = true
+				})
+				nCall := 0
+				ir.EachInstr(fn, func(_ *ssa.BasicBlock, _ int, in ssa.Instruction) {
+					call, ok := in.(*ssa.Call)
+					if !ok {
+						return
+					}
+					var sends bool
+					var mutates string
+					for _, cal := range ir.Callees(c.G, call) {
+						if !c.P.IsLib(cal) {
+							continue
+						}
+						for f := range c.ReachSync(cal) {
+							if tableReaders[f] {
+								sends = true
+							}
+							if m, ok := mutators[f]; ok {
+								mutates = m
+							}
+						}
+					}
+					if sends {
+						nCall++
+						c.R.Check(flow.Dominates(ins.Instr, in), "R-register-first", sprintf("send to the session #%d in %s", nCall, fname(fn)), c.Pos(call.Pos()),
+							"made after this stream's own record is in the table",
+							sprintf("%s sends to the session (through a function that looks the session's stream up in %s) before its own record is in the table: the message goes to the stream being replaced — and if that peer has stalled, the new stream is never registered", fname(fn), table))
+					}
+					if mutates != "" && exitRegion[in.Block()] {
+						guarded := false
+						for _, g := range flow.Guards(fn, in.Block()) {
+							bin, ok := g.If.Cond.(*ssa.BinOp)
+							if !ok || (bin.Op != token.EQL && bin.Op != token.NEQ) || (bin.Op == token.EQL) != g.Branch {
+								continue
+							}
+							x, y := ir.Unwrap(bin.X), ir.Unwrap(bin.Y)
+							if (sameValue(x, rec) && fromTableLookup(y, table)) || (sameValue(y, rec) && fromTableLookup(x, table)) {
+								guarded = true
+							}
+						}
+						nCall++
+						c.R.Check(guarded, "R-remove-self-only", sprintf("exit of %s touches %s", fname(fn), mutates), c.Pos(call.Pos()),
+							"only while the table still maps the session to this very stream",
+							sprintf("on its exit path %s changes %s, state of the whole session, without checking that it is still the session's current stream: when a newer stream has replaced it, the old stream's exit takes away what belongs to the newer one (pending server requests, registrations)", fname(fn), mutates))
+					}
+				})
 				// self tear-down deletes
 				for _, del := range fi.deletes {
 					nSelf++
@@ -264,6 +352,7 @@ func checkC11(c *Ctx) {
 	c.R.Min("R-replace-atomic", 1)
 	c.R.Min("R-remove-self-only", 1)
 	c.R.Min("R-foreign-delete", 1)
+	c.R.Min("R-register-first", 1)
 	c11SlotOwner(c)
 	_ = nSelf
 	_ = nReplace
